@@ -29,10 +29,16 @@ TrPacketOutData ==
   /\ PacketOutData(Ev.args.f, Ev.args.p, Ev.args.act)
   /\ Ev.wf
   /\ last'.exp.emitted = ToSet(Ev.obs.emitted)
+TrMissViaTable ==
+  /\ IsEvent("MissViaTable")
+  /\ MissViaTable(Ev.args.f, Ev.args.p)
+  /\ Ev.wf
+  /\ last'.exp = [buf |-> Ev.obs.buf, total |-> Ev.obs.total, dataLen |-> Ev.obs.dataLen,
+                  inport |-> Ev.obs.inport, reason |-> Ev.obs.reason, emitted |-> ToSet(Ev.obs.emitted)]
 TrSetConfig ==
   /\ IsEvent("SetConfig") /\ SetConfig(Ev.args.missLen) /\ Ev.wf
 
-TrNext == TrToController \/ TrUse("PacketOut") \/ TrUse("FlowMod") \/ TrPacketOutData \/ TrSetConfig
+TrNext == TrMissViaTable \/ TrToController \/ TrUse("PacketOut") \/ TrUse("FlowMod") \/ TrPacketOutData \/ TrSetConfig
 TrSpec == TrInit /\ [][TrNext]_tvars
 
 Progress == TLCSet(tid, IF TLCGet(tid) < l - 1 THEN l - 1 ELSE TLCGet(tid))
